@@ -284,6 +284,58 @@ func (c *Ctx) globalInitFromEmbed(g *ssa.Global) bool {
 // the given success block; every return reachable from failBlock without
 // passing success returns non-nil.
 func nilErrReturns(fn *ssa.Function, errIdx int) (nilBlocks []*ssa.BasicBlock, nonNilBlocks []*ssa.BasicBlock) {
+	// a return "may succeed" when its error result can be nil there: the nil constant, or a
+	// propagated error value (return r.WritePacket(...)) that has not been found non-nil on the way
+	freshErr := func(v ssa.Value) bool {
+		switch x := v.(type) {
+		case *ssa.MakeInterface:
+			return true
+		case *ssa.Call:
+			n := calleeName(x.Common())
+			return n == "errors.New" || n == "fmt.Errorf"
+		}
+		return false
+	}
+	knownNonNil := func(v ssa.Value, at *ssa.BasicBlock) bool {
+		for _, p := range fn.Blocks {
+			if len(p.Instrs) == 0 {
+				continue
+			}
+			iff, ok := p.Instrs[len(p.Instrs)-1].(*ssa.If)
+			if !ok {
+				continue
+			}
+			cmp, ok := iff.Cond.(*ssa.BinOp)
+			if !ok || (cmp.Op != token.NEQ && cmp.Op != token.EQL) {
+				continue
+			}
+			if !((cmp.X == v && isNilConst(cmp.Y)) || (cmp.Y == v && isNilConst(cmp.X))) {
+				continue
+			}
+			nn := p.Succs[0]
+			if cmp.Op == token.EQL {
+				nn = p.Succs[1]
+			}
+			if len(nn.Preds) == 1 && nn.Dominates(at) {
+				return true
+			}
+		}
+		return false
+	}
+	classify := func(v ssa.Value, at *ssa.BasicBlock) {
+		switch {
+		case isNilConst(v):
+			nilBlocks = append(nilBlocks, at)
+		case freshErr(v) || knownNonNil(v, at):
+			nonNilBlocks = append(nonNilBlocks, at)
+		default:
+			if _, isConst := v.(*ssa.Const); isConst {
+				nonNilBlocks = append(nonNilBlocks, at)
+			} else {
+				nilBlocks = append(nilBlocks, at)
+			}
+		}
+	}
 	for _, b := range fn.Blocks {
 		for _, in := range b.Instrs {
 			r, ok := in.(*ssa.Return)
@@ -291,25 +343,13 @@ func nilErrReturns(fn *ssa.Function, errIdx int) (nilBlocks []*ssa.BasicBlock, n
 				continue
 			}
 			v := r.Results[errIdx]
-			switch x := v.(type) {
-			case *ssa.Const:
-				if x.IsNil() {
-					nilBlocks = append(nilBlocks, b)
-				} else {
-					nonNilBlocks = append(nonNilBlocks, b)
-				}
-			case *ssa.Phi:
+			if x, ok := v.(*ssa.Phi); ok {
 				for i, e := range x.Edges {
-					if isNilConst(e) {
-						nilBlocks = append(nilBlocks, x.Block().Preds[i])
-					} else {
-						nonNilBlocks = append(nonNilBlocks, x.Block().Preds[i])
-					}
+					classify(e, x.Block().Preds[i])
 				}
-			default:
-				// a propagated error value (may be nil only if the callee succeeded)
-				nonNilBlocks = append(nonNilBlocks, b)
+				continue
 			}
+			classify(v, b)
 		}
 	}
 	return
@@ -408,7 +448,7 @@ func (c *Ctx) RCONPolarity() []core.Ob {
 	do := polOb(c, "rcon.DialRCON:success-iff-id-echoed", "DialRCON reports success only on the edge where the login response id equals the request id it sent", d)
 	if d == nil {
 		do.Status, do.Got = core.Violated, "not found"
-	} else if why := idEqualityGuardsNil(d, 1); why != "" {
+	} else if why := c.idEqualityGuardsNilIn(d); why != "" {
 		do.Status, do.Got = core.Violated, why
 	}
 	obs = append(obs, do)
@@ -417,11 +457,34 @@ func (c *Ctx) RCONPolarity() []core.Ob {
 	ro := polOb(c, "rcon.Resp:accept-only-current-id", "Resp accepts a response only under the request id in use (and type 0)", r)
 	if r == nil {
 		ro.Status, ro.Got = core.Violated, "not found"
-	} else if why := idEqualityGuardsNil(r, 1); why != "" {
+	} else if why := c.idEqualityGuardsNilIn(r); why != "" {
 		ro.Status, ro.Got = core.Violated, why
 	}
 	obs = append(obs, ro)
 	return obs
+}
+
+// idEqualityGuardsNilIn: the id test lives in fn or in a helper of the package
+// that fn calls (DialRCON -> login); the first place that has the comparison decides.
+func (c *Ctx) idEqualityGuardsNilIn(fn *ssa.Function) string {
+	why := ""
+	for _, g := range c.withPkgCallees(fn, 2) {
+		res := g.Signature.Results()
+		if res.Len() == 0 || !isErrorType(res.At(res.Len()-1).Type()) {
+			continue
+		}
+		w := idEqualityGuardsNil(g, res.Len()-1)
+		if w == "" {
+			return ""
+		}
+		if why == "" || !strings.HasPrefix(w, "no comparison") {
+			why = w
+		}
+	}
+	if why == "" {
+		why = "no comparison of the received request id with the ReqID field"
+	}
+	return why
 }
 
 // idEqualityGuardsNil: in fn (whose error result index is errIdx) there is a
